@@ -18,13 +18,13 @@
         spec fn functional() -> bool;
 
         //@ fn src:zvt_builder/src/encoding.rs | trait Encoding | encode | sig props=C17,C03
-        //@ tag enc.exact C17 C03
+        //@ tag enc.exact C17 C03 ~C01
             requires Self::enc_ok(input),
             ensures r@ =~= Self::spec_enc(input),
         //@ end
         //@ fn src:zvt_builder/src/encoding.rs | trait Encoding | decode | sig props=C02,C17
             ensures
-        //@ tag dec.ok C17 C14
+        //@ tag dec.ok C17 C14 ~C01
                 Self::functional() ==> (Self::spec_dec(bytes@) matches Some((v, k)) ==> (r matches Ok((v2, rest)) && v2 == v && 0 <= k <= bytes@.len() && rest@ =~= bytes@.skip(k))),
         //@ tag dec.err C17 C02
                 (Self::functional() && Self::spec_dec(bytes@) is None) ==> r is Err,
